@@ -327,8 +327,11 @@ class Parser:
                 raise self._error("Unexpected end of input in block")
             else:
                 # Parse a non-block statement
+                start = self.current
                 stmt = self._parse_non_block_statement()
                 if stmt is not None:
+                    if stmt.loc is None:
+                        stmt.loc = SourceLocation(start.line, start.column)
                     block_stack[current_depth].append(stmt)
 
         # Should not reach here
